@@ -37,6 +37,7 @@ FAULTS_FOR = {
 
 # runtime environment picked up by Net(): set by the runners / sync_env
 ENV: dict = {"now": None, "sched": None}
+NETS_CREATED: list | None = None  # set to a list to collect every Net built (differential runs)
 
 
 class RecordingSSLContext(ssl.SSLContext):
@@ -232,6 +233,8 @@ class Net:
         self.log_events = True
         self.busy_events = 0
         self.on_fault = None
+        if NETS_CREATED is not None:
+            NETS_CREATED.append(self)
 
     # -- registry ------------------------------------------------------------
     def add(self, host: str, port: int, factory) -> None:
